@@ -176,7 +176,11 @@ def check_case(case):
             if v:
                 return v, {}
         # the same text through the file reader
-        path = os.path.abspath("c18_case.cfg")
+        if len(seq) % 3 == 0:
+            os.makedirs("c18_dir", exist_ok=True)
+            path = os.path.abspath(os.path.join("c18_dir", "propka.cfg"))     # same base name as the shipped file
+        else:
+            path = os.path.abspath("c18_case.cfg")
         with open(path, "w") as fh:
             fh.write("\n".join(l for l, _ in seq) + ("\n" if len(seq) % 2 else ""))   # last line with / without newline
         p2 = read_parameter_file(path, Parameters())
